@@ -1,6 +1,6 @@
 import PPModel.Base.Sexp
 import PPModel.Mod.Threads
-namespace PP.Driver
+namespace PP.Driver.ThreadsD
 open PP PP.Sexp PP.Threads
 
 namespace Thr
@@ -146,4 +146,8 @@ def threadsHandle : List Sexp → Option Sexp
               | none => .atom "unfinished")])
   | _ => none
 
+end PP.Driver.ThreadsD
+
+namespace PP.Driver
+def threadsHandle := ThreadsD.threadsHandle
 end PP.Driver
